@@ -103,8 +103,8 @@ impl Family for C04Family {
 
     fn total(&self, tier: Tier) -> u64 {
         match tier {
-            Tier::Quick => CELLS,
-            Tier::Thorough => CELLS * 60,
+            Tier::Quick => CELLS * 20,
+            Tier::Thorough => CELLS * 600,
         }
     }
 
